@@ -53,16 +53,40 @@ pub struct DrawnBatch {
 }
 
 /// The hand-written corpus (/verif/corpus/*.pdl) as model descriptions, sorted by file name.
+#[allow(dead_code)]
 pub fn corpus_descs() -> Vec<(String, Result<Desc, String>, String)> {
+    corpus_for("")
+}
+
+/// Corpus files whose first line (`// backends: rust python cxx java python-pair`) names `backend`
+/// ("" = all files).
+pub fn corpus_for(backend: &str) -> Vec<(String, Result<Desc, String>, String)> {
     let mut files: Vec<PathBuf> = std::fs::read_dir(format!("{VERIF}/corpus")).map(|r| r.filter_map(|e| e.ok()).map(|e| e.path()).filter(|p| p.extension().map(|x| x == "pdl").unwrap_or(false)).collect()).unwrap_or_default();
     files.sort();
     let mut out = vec![];
     for f in files {
         let name = f.file_name().unwrap().to_string_lossy().to_string();
         let Ok(text) = std::fs::read_to_string(&f) else { continue };
+        let listed: Vec<&str> = text.lines().next().and_then(|l| l.strip_prefix("// backends:")).map(|l| l.split_whitespace().collect()).unwrap_or_default();
+        if !backend.is_empty() && !listed.contains(&backend) {
+            continue;
+        }
         out.push((name.clone(), crate::compile::desc_of_text(&name, &text), text));
     }
     out
+}
+
+/// Append the corpus files listed for `backend` to a remote description list, LE and BE.
+pub fn append_corpus(descs: &mut Vec<crate::remote::RemoteDesc>, backend: &str) {
+    for (name, d, _) in corpus_for(backend) {
+        let Ok(d) = d else { continue };
+        for big in [false, true] {
+            let mut dd = d.clone();
+            dd.big = big;
+            let text = plain(&dd);
+            descs.push(crate::remote::RemoteDesc { idx: descs.len(), desc: dd, text, strata: vec![format!("corpus:{name}")] });
+        }
+    }
 }
 
 /// Draw the batch of descriptions for (seed, tier): LE/BE twin pairs cycling through strata.
@@ -101,15 +125,8 @@ pub fn draw_batch(seed: u64, tier: &str, extra: &[(String, Desc, String)]) -> Dr
         }
     }
     // hand-written corpus: feature combinations the random strata reach only on some seeds (every run, LE and BE)
-    let mut files: Vec<PathBuf> = std::fs::read_dir(format!("{VERIF}/corpus")).map(|r| r.filter_map(|e| e.ok()).map(|e| e.path()).filter(|p| p.extension().map(|x| x == "pdl").unwrap_or(false)).collect()).unwrap_or_default();
-    files.sort();
-    for f in files {
-        let name = f.file_name().unwrap().to_string_lossy().to_string();
-        let text = match std::fs::read_to_string(&f) {
-            Ok(t) => t,
-            Err(_) => continue,
-        };
-        match crate::compile::desc_of_text(&name, &text) {
+    for (name, d, text) in corpus_for("rust") {
+        match d {
             Ok(d) => {
                 let mut twin = d.clone();
                 twin.big = !d.big;
